@@ -51,7 +51,7 @@ def library_views_consistent(self):
             if sorted(_ids(parts)) != sorted(_ids(blocks)):
                 why = "entries/strings/preambles/comments/failed_blocks do not partition blocks"
     LAST["library_invariant"] = why
-    return why is None
+    return why is None or _record_or_fail("library_invariant", why, [type(b).__name__ + ":" + str(getattr(b, "key", "")) for b in blocks][:20])
 
 
 def install_library_invariant():
@@ -86,7 +86,7 @@ def entry_views_agree(self):
     else:
         COUNT["entry_invariant_out_of_quantifier"] += 1
     LAST["entry_invariant"] = why
-    return why is None
+    return why is None or _record_or_fail("entry_invariant", why, keys)
 
 
 def install_entry_invariant():
@@ -120,7 +120,7 @@ def _split_post(names, result):
             if again != result:
                 why = "not-idempotent"
     LAST["split_names_post"] = why
-    return why is None
+    return why is None or _record_or_fail("split_names_post", why, names if isinstance(names, str) else repr(names))
 
 
 def install_split_contract():
@@ -133,12 +133,12 @@ def install_split_contract():
     _INSTALLED.add("split")
 
 
-def _parse_name_post(name, result):
-    """word conservation of parse_single_name_into_parts on valid names (C13)."""
+def _parse_name_post(name, strict, result):
+    """word conservation of parse_single_name_into_parts on valid names (C13); strict mode only."""
     from ..ref import names as R
     COUNT["parse_name_post"] += 1
     why = None
-    if not isinstance(name, str):
+    if not isinstance(name, str) or not strict:
         COUNT["parse_name_post_out_of_quantifier"] += 1
     else:
         try:
@@ -159,7 +159,7 @@ def _parse_name_post(name, result):
             if not ok:
                 why = "words-not-conserved"
     LAST["parse_name_post"] = why
-    return why is None
+    return why is None or _record_or_fail("parse_name_post", why, name if isinstance(name, str) else repr(name))
 
 
 def install_parse_name_contract():
@@ -167,7 +167,7 @@ def install_parse_name_contract():
         return
     from bibtexparser.middlewares import names as N
     ORIG["parse_name"] = N.parse_single_name_into_parts
-    err = lambda name, result: PostBroken(LAST.get("parse_name_post"))  # noqa: E731
+    err = lambda name, strict, result: PostBroken(LAST.get("parse_name_post"))  # noqa: E731
     N.parse_single_name_into_parts = icontract.ensure(_parse_name_post, error=err)(N.parse_single_name_into_parts)
     _INSTALLED.add("parse_name")
 
@@ -198,7 +198,7 @@ def _no_mutation_post(self, library, result, OLD):
             kinds = sorted({a[i] for i in shared})
             why = f"{name}: result shares mutable objects with the input: {'+'.join(kinds)[:60]}"
     LAST["no_mutation_post"] = why
-    return why is None
+    return why is None or _record_or_fail("no_mutation_post", why, name)
 
 
 def install_no_mutation_contract():
@@ -244,3 +244,51 @@ def shipped_middleware_classes():
                 and cls.__name__ not in ("BlockMiddleware", "LibraryMiddleware", "Middleware"):
             out[cls.__name__] = cls
     return out
+
+
+# ------------------------------------------------------------------ passive (record-only) mode
+RECORD_ONLY = [False]
+RECORDED = []          # dict(monitor, why, witness)
+
+
+def _record_or_fail(monitor, why, witness):
+    """In record-only mode (passive monitoring of the repository's own test suite) a broken
+    condition is recorded and the condition reports True, so the observed run is not perturbed."""
+    if why is None:
+        return True
+    if RECORD_ONLY[0]:
+        if len(RECORDED) < 200:
+            RECORDED.append(dict(monitor=monitor, why=why, witness=witness))
+        return True
+    return False
+
+
+def _tiling_post(self, library, result):
+    """C03 as a postcondition of Splitter.split (fresh library only)."""
+    from ..ref import tiling
+    COUNT["split_tiling_post"] += 1
+    if library is not None:
+        COUNT["split_tiling_post_out_of_quantifier"] += 1
+        return True
+    text = self.bibstr[1:]
+    raws = [b.raw for b in result.blocks]
+    pos, prob = tiling.place(text, raws)
+    why = None
+    if prob:
+        why = f"tiling:{prob['kind']}"
+    else:
+        for b, p in zip(result.blocks, pos):
+            if b.start_line != text.count("\n", 0, p):
+                why = "start-line"
+                break
+    LAST["split_tiling_post"] = why
+    return _record_or_fail("split_tiling_post", why, text[:400])
+
+
+def install_tiling_contract():
+    if "tiling" in _INSTALLED:
+        return
+    from bibtexparser import splitter as S
+    err = lambda self, library, result: PostBroken(LAST.get("split_tiling_post"))  # noqa: E731
+    S.Splitter.split = icontract.ensure(_tiling_post, error=err)(S.Splitter.split)
+    _INSTALLED.add("tiling")
